@@ -190,10 +190,20 @@ var c13Templates = []sim.Template{
 			sc = append(sc, act("login", 1, w, "ok"), act("ev_start", 1, -9, "", "kind", k), act("ev_end", 0, -9, "othersession", "kind", k), act(k+"_setup", 0, -9, "own"))
 		}
 		sc = append(sc, act("ev_end", 0, -9, "current", "kind", k), act(k+"_setup", 0, -9, "own"))
+		if s.R.Intn(2) == 0 {
+			// the application's own After(EventTwoFactorAdded) listener answers the confirming request
+			// itself, or fails in it: the enrolment is complete all the same, and its authorisation spent
+			sc = append(sc, act("hooknext", 0, -9, "", "mode", pickS(s.R, "handled", "handled", "error")))
+		}
 		if k == "totp" {
 			sc = append(sc, act("totp_confirm", 0, -9, "ok"), act("totp_setup", 0, -9, ""), act("get", 0, -9, "", "route", "/2fa/totp/setup"))
 		} else {
 			sc = append(sc, act("sms_confirm", 0, -9, "ok"), act("sms_setup", 0, -9, "own"), act("get", 0, -9, "", "route", "/2fa/sms/setup"))
+		}
+		if len(s.Cfg.TwoFA) == 2 {
+			// one e-mail authorisation covers one enrolment: not the other kind's either
+			o := map[string]string{"totp": "sms", "sms": "totp"}[k]
+			sc = append(sc, act("get", 0, -9, "", "route", "/2fa/"+o+"/setup"), act(o+"_setup", 0, -9, "own"))
 		}
 		return sc
 	}},
